@@ -14,7 +14,7 @@
 """
 import os
 import subprocess
-from ..terms import get_tracer, fmt, strip, short, call_of, alts, walk, FROM_RESIDUAL, TRY_BRANCH
+from ..terms import get_tracer, fmt, fmt_guard, strip, short, call_of, alts, walk, FROM_RESIDUAL, TRY_BRANCH
 from ..inter import Inter
 from ..pathflow import World, PathFlow
 from ..results import PRESERVING
@@ -278,6 +278,11 @@ def run_error_rs(facts, rep):
                     g_nf = any(("NotFound" in str(g)) for g in gs)
                     if g_io and g_nf:
                         found = True
+                        # ... for *every* io NotFound: no further condition on the error (wrapped cause, message, source)
+                        extra_g = [g for g in gs if not (g[0] == "variant" and g[3] == "IoError") and "NotFound" not in str(g)]
+                        rep.ob("R12.3a", fb.id, "io NotFound -> FileNotFound is unconditional", not extra_g,
+                               "" if not extra_g else "the normalisation arm has an additional condition (%s): some OS 'no such file' "
+                               "errors (e.g. those a wrapper library decorates with a cause) stay IoError" % fmt_guard(extra_g[0])[:70], s.line)
         rep.ob("R12.3a", fb.id, "io NotFound -> FileNotFound", found,
                "normalisation arm present under (IoError, NotFound)" if found else
                "no FileNotFound construction guarded by kind==IoError and io kind==NotFound", fb.span)
@@ -455,6 +460,13 @@ def run(facts, rep, tier, ctx):
             d = o["key"].split("|")[2]
             if "no copy-up" in d:
                 rep.ob(("A/" if w_.asyncw else "") + "R12.3u", o["fn"], d, o["ok"], o["detail"], o["loc"])
+        # occupied create_dir through the overlay: file-exists / directory-exists by the type of the entry the union shows
+        scratch = Report("v")
+        c09.table_u(facts, scratch, w_, "U", only=("create_dir",))
+        for o in scratch.obligations:
+            d = o["key"].split("|")[2]
+            if "Exists for a union" in d:
+                rep.ob(("A/" if w_.asyncw else "") + "R12.3e", o["fn"], d, o["ok"], o["detail"], o["loc"])
     if wa.present():
         from .c10 import _Prefixed
         A = _Prefixed(rep, "A")
